@@ -768,6 +768,8 @@ class TFLiteSemantic:
         else:
             axis = list(op.inputs[1].values)
         valid = True
+        # negative values count from the last dimension
+        axis = [ax + dims if -dims <= ax < 0 else ax for ax in axis]
 
         for ax in axis:
             if ax < 0 or ax >= dims:
